@@ -112,7 +112,7 @@ CATALOGUE = [
       [(G, "        self._fixed_gradient_indices = {v.gradient_index for v in self._vertices if v.fixed}",
         "        if not self._fixed_gradient_indices:\n            self._fixed_gradient_indices = {v.gradient_index for v in self._vertices if v.fixed}", 1)], "C06-b"),
     # ---------------------------------------------------------------- numerical Jacobians / purity
-    V("numjac-restore-deleted", ["C15", "C16"], "break", [(BE, "            self.vertices[vertex_index].pose = p0.copy()\n", "", 1)], ["_calc_jacobian", "finite-difference"]),
+    V("numjac-restore-deleted", ["C15", "C16"], "break", [(BE, "            self.vertices[vertex_index].pose = p0.copy()\n", "", 1)], ["perturb-restore", "finite-difference"]),
     V("numjac-copy-dropped-twin", ["C15", "C16"], "twin",
       [(BE, "pose = p0.copy()", "pose = p0", 1), (BE, "p0 = self.vertices[vertex_index].pose.copy()", "p0 = self.vertices[vertex_index].pose", 1)]),
     V("numjac-wrong-coordinate", ["C16"], "break",
